@@ -90,10 +90,6 @@ Definition demanded (p : plat) (meth site : string) (c : cond) : option res :=
   | None => contract p meth site c
   end.
 
-(* finding: Process.ppid() of _pswindows.py is not decorated *)
-Definition known_unwrapped (p : plat) (meth : string) : bool :=
-  match p with Windows => g_win_ppid meth | _ => false end.
-
 Definition all_err : list err := [ESRCH; ENOENT; EPERM; EACCES; EIO; EINVAL; WACCESS; WPRIV; WPARTIAL; WINVAL].
 Definition all_state : list pstate := [Alive; Zombie; Gone].
 Definition conds (p : plat) : list cond :=
@@ -331,12 +327,6 @@ Definition all_plats : list plat := [FreeBSD; OpenBSD; NetBSD; MacOS; SunOS; AIX
 Definition doc_keys : list (plat * string * string) :=
   flat_map (fun p => flat_map (fun m => flat_map (fun v =>
      match doc_layout p m v with Some _ => [(p, m, v)] | None => [] end) [""; "fallback"]) layout_methods) all_plats.
-
-(* findings: gids() built with the puids constructor; Solaris terminal() ignores ttynr *)
-Definition known_gids_type (p : plat) (meth : string) : bool :=
-  match p with MacOS | SunOS | AIX => seq meth "gids" | _ => false end.
-Definition known_terminal (p : plat) (meth : string) : bool :=
-  match p with SunOS => seq meth "terminal" | _ => false end.
 
 (* ------------------------------------------------------------------ documented names *)
 Definition doc_common : list string :=
